@@ -38,7 +38,11 @@ Mk4(k1, v1, k2, v2, k3, v3, k4, v4) == M(k1 :> v1 @@ k2 :> v2 @@ k3 :> v3 @@ k4 
 D1 == Mk2("a", I("1"), "id", I("1"))
 D2 == Mk2("a", I("2"), "id", I("2"))
 D3 == Mk3("a", I("1"), "id", I("3"), "l", L(<<I("1")>>))
-BasesC02 == { <<D1>>, <<D1, D2>>, <<D1, D2, D3>>, <<D1, D1>>, <<L(<<I("1")>>), D2>> }
+(* a document that is nothing but a reference (one $merge / $replace / $encode key) is a placeholder:  *)
+(* no pattern selects it, the empty pattern included                                                 *)
+RefOnly1 == Single("$merge", Single("$match", Single("id", I("1"))))
+RefOnly2 == Single("$replace", Single("$match", Single("id", I("2"))))
+BasesC02 == { <<D1>>, <<D1, D2>>, <<D1, D2, D3>>, <<D1, D1>>, <<L(<<I("1")>>), D2>>, <<D1, RefOnly1>>, <<RefOnly2, D2>> }
 
 MergeCall(data, parents) == [op |-> "merge", data |-> data, parents |-> parents]
 PatchesC02 == {
